@@ -107,13 +107,18 @@ def parsePerm (s : String) : Option (Bytes → Bytes → Bytes → Bool) :=
       pure fun user pass _ => user == u && pass == p
     | _ => none
 
-def handleCli (cm adv steps peer : String) : Option String := do
+def optNat (s : String) : Option (Option Nat) :=
+  if s == "-" then some none else s.toNat?.map some
+
+def handleCli (budget cancel cm adv steps peer : String) : Option String := do
+  let b ← optNat budget
+  let k ← optNat cancel
   let script ← mapM? parseStep (splitList steps)
   let evs ← mapM? parseCEv (splitList peer)
   let names ← decNames cm
   let advs ← decNames adv
   let mechs := names.map fun n => (n, scriptMech script 0)
-  let r := clientNeg mechs advs evs
+  let r := if b.isNone && k.isNone then clientNeg mechs advs evs else clientNegE ⟨b, k⟩ mechs advs evs
   pure s!"{showBool r.authn} {r.err.toString} {(r.used.map encName).getD "-"} {joinList (r.sent.map showCSent)} {joinList (r.hist.map showBytes)}"
 
 def handleSrv (allScripted : Bool) (budget : Option Nat) (sm steps perm peer : String) : Option String := do
@@ -130,8 +135,9 @@ def handleSrv (allScripted : Bool) (budget : Option Nat) (sm steps perm peer : S
 
 def handle (args : List String) : Option String :=
   match args with
-  | ["cli", cm, adv, steps, peer] => handleCli cm adv steps peer
-  | ["clis", cm, adv, steps, peer] => handleCli cm adv steps peer
+  | ["cli", cm, adv, steps, peer] => handleCli "-" "-" cm adv steps peer
+  | ["clis", cm, adv, steps, peer] => handleCli "-" "-" cm adv steps peer
+  | ["clie", budget, cancel, cm, adv, steps, peer] => handleCli budget cancel cm adv steps peer
   | ["srv", sm, steps, perm, peer] => handleSrv false none sm steps perm peer
   | ["srvs", sm, steps, perm, peer] => handleSrv true none sm steps perm peer
   | ["srvw", n, sm, steps, perm, peer] => do
